@@ -949,8 +949,21 @@ fn aspa_sweep(rep: &mut Report, srv: &mut Srv, cal: &Cal, around: usize) -> Resu
 
 fn protocol_before_first_run(rep: &mut Report) {
     let srv = Srv::plain();
-    for (method, path) in [("GET", "/json-delta".to_string()), ("GET", "/json-delta?session=1&serial=0".to_string()),
-                           ("HEAD", "/json-delta".to_string())] {
+    // the server's own session (handed out by the notify endpoint even now) with the serial the first data set will get
+    let own = http_request(srv.fx.http_port, "GET", "/json-delta/notify", &[], None, std::time::Duration::from_secs(20)).ok()
+        .and_then(|r| serde_json::from_slice::<Value>(&r.body).ok())
+        .and_then(|v| v["session"].as_u64().or_else(|| v["session"].as_str().and_then(|s| s.parse().ok())));
+    let mut probes = vec![("GET", "/json-delta".to_string()), ("GET", "/json-delta?session=1&serial=0".to_string()),
+                          ("HEAD", "/json-delta".to_string())];
+    match own {
+        Some(sess) => {
+            probes.push(("GET", format!("/json-delta?session={sess}&serial=0")));
+            probes.push(("HEAD", format!("/json-delta?session={sess}&serial=0")));
+            probes.push(("GET", format!("/json-delta?session={sess}&serial=1")));
+        }
+        None => rep.divergence(PID, "initial: /json-delta/notify did not hand out a session before the first run".to_string()),
+    }
+    for (method, path) in probes {
         rep.eval(PID);
         match http_request(srv.fx.http_port, method, &path, &[], None, std::time::Duration::from_secs(20)) {
             Ok(r) => {
